@@ -4,6 +4,8 @@
    findkey <enc> <mode> <hex>              -> ok none | ok <key> / <consumed hex> / <rest hex> | E:<kind>
    segment <enc> <mode> <hex>              -> ok [<key>/<consumed hex> ...] | E:<kind>
    decodable <enc> <hex>  /  unfinished <enc> <hex>  -> ok 0|1
+   decode <enc> <hex>                      -> ok <cps> | E:UnicodeDecodeError
+   keyname <enc> <mode> <hex>              -> ok <key> | E:<kind>        (events._key_name)
    keymap <cps>                            -> ok [<cps> ...] | E:KeyError
    utf8enc <code point>                    -> ok <hex>
    tables are the regenerated Generated.Keys. -/
@@ -70,6 +72,12 @@ def keyOps (args : List String) : Option String :=
     let bs ← decHex h
     pure (encExcept (encList fun (p : KeyVal × List Nat) => (encKeyVal p.1).replace " " ":" ++ "/" ++ encHex p.2)
       (segment genTables e m bs.length bs))
+  | ["keyname", e, m, h] => do
+    pure (encExcept encKeyVal (keyName genTables (← decHex h) (← decEnc e) (← decMode m)))
+  | ["decode", e, h] => do
+    pure (match decode (← decEnc e) (← decHex h) with
+      | some cs => "ok " ++ encCps cs
+      | none => "E:UnicodeDecodeError")
   | ["decodable", e, h] => do pure (encBool (decodable (← decHex h) (← decEnc e)))
   | ["unfinished", e, h] => do pure (encBool (couldBeUnfinishedChar (← decHex h) (← decEnc e)))
   | ["keymap", k] => do
